@@ -5,7 +5,7 @@
    trios are not reached by the code), and per asset the router's answer: no route / failing simulation / the whole
    balance swapped for any r >= 0 of the distribution asset / a failing hop (aborts everything). *)
 From WW Require Import Prim Params Epochs Distributor Lair Pipeline.
-From WW.Proofs Require Import ArithLemmas DistributorProofs PipelineProofs.
+From WW.Proofs Require Import ArithLemmas DistributorProofs PipelineProofs PipelineHistory.
 
 (* an accepted NewEpoch end to end: collected, aggregated, take rate = floor(rate * balance) iff active / non-zero / DAO set
    and recorded under the new epoch id, the rest forwarded (the collector keeps none of the distribution asset),
@@ -89,6 +89,16 @@ Theorem C10_collect_aggregate_frame : forall c now s o s',
   p_active s' = p_active s /\ p_rate s' = p_rate s /\ p_dao_set s' = p_dao_set s.
 Proof. exact pipeline_collect_aggregate_frame. Qed.
 
+(* the take-rate ledger over whole histories: the per-epoch records sum to exactly what the DAO received ("minus only the take
+   rate": nothing reaches the DAO that is not recorded, nothing is recorded that did not reach it), every record belongs to an
+   epoch that exists, and no epoch has two records *)
+Theorem C10_take_rate_history : forall c g h, 1 <= g -> phist_wf h ->
+  let s := prun c g h in
+  hist_sum (p_history s) = p_dao s /\
+  Forall (fun kv => 1 <= fst kv <= e_id (cur_epoch (p_dist s))) (p_history s) /\
+  NoDup (map fst (p_history s)).
+Proof. exact pipeline_take_rate_history. Qed.
+
 (* ---- non-vacuity ------------------------------------------------------------------------------------------ *)
 Definition DAY : Z := 86400000000000.
 Definition T0 : Z := 1000 * DAY.
@@ -120,6 +130,7 @@ Proof.
   - vm_compute. repeat split; reflexivity.
 Qed.
 
+Print Assumptions C10_take_rate_history.
 Print Assumptions C10_new_epoch_pipeline.
 Print Assumptions C10_conservation.
 Print Assumptions C10_forward_eq_total.
